@@ -432,10 +432,40 @@ def HonestReply (B : Bytes) : Reply → Prop
   | .fail => True
   | .parts ps => ∀ p ∈ ps, HonestPart B p
 
+instance (B : Bytes) : (r : Reply) → Decidable (HonestReply B r)
+  | .fail => by unfold HonestReply; infer_instance
+  | .parts ps => by unfold HonestReply; infer_instance
+
 structure Inv (P : Params) (B : Bytes) (s : St) : Prop where
   cacheOK : CacheOK P B s.cache
   wf : WF s.fetched
   inBlob : SV.Props.C06.InBlob P.size s.fetched
+
+/-- Generic form of the invariant: `Q c d` is what is known about a cache entry `d` stored under
+key `c`. -/
+structure InvQ (P : Params) (Q : Chunk → Bytes → Prop) (s : St) : Prop where
+  cacheQ : ∀ c d, s.cache.get c = some d → Q c d
+  wf : WF s.fetched
+  inBlob : SV.Props.C06.InBlob P.size s.fetched
+
+/-- What the proofs need from `Q`: the true data of a grid chunk may be stored, and every entry is
+at least a prefix of the true blob bytes from the chunk start. -/
+structure GoodQ (P : Params) (B : Bytes) (Q : Chunk → Bytes → Prop) : Prop where
+  put : ∀ c, GridChunk P c → Q c (slice B c.b c.size)
+  pre : ∀ c d, Q c d → d = slice B c.b d.length
+
+/-- Entry is exactly the chunk data (`CacheOK`). -/
+def QExact (P : Params) (B : Bytes) (c : Chunk) (d : Bytes) : Prop :=
+  d = slice B c.b c.size ∧ GridChunk P c
+
+/-- Entry is a (possibly truncated) prefix of the true bytes at the chunk start: what a cache
+that may return short data still guarantees. -/
+def QPrefix (P : Params) (B : Bytes) (c : Chunk) (d : Bytes) : Prop :=
+  d = slice B c.b d.length ∧ GridChunk P c
+
+/-- Weak cache invariant: entries may be truncated, but never hold wrong bytes. -/
+def CachePrefixOK (P : Params) (B : Bytes) (cache : Cache) : Prop :=
+  ∀ c d, cache.get c = some d → QPrefix P B c d
 
 /-- Fetched coverage only grows. -/
 def CovSub (s s' : St) : Prop := ∀ x, cov x s.fetched → cov x s'.fetched
@@ -450,6 +480,37 @@ def Exact (P : Params) (B : Bytes) (got : List (Chunk × Bytes)) : Prop :=
 
 theorem inv_init (P : Params) (B : Bytes) : Inv P B {} :=
   ⟨by intro c d h; simp [Cache.get] at h, ⟨by simp, by simp⟩, by intro l hl; simp at hl⟩
+
+theorem invQ_init (P : Params) (Q : Chunk → Bytes → Prop) : InvQ P Q {} :=
+  ⟨by intro c d h; simp [Cache.get] at h, ⟨by simp, by simp⟩, by intro l hl; simp at hl⟩
+
+theorem inv_iff (P : Params) (B : Bytes) (s : St) : Inv P B s ↔ InvQ P (QExact P B) s :=
+  ⟨fun h => ⟨h.cacheOK, h.wf, h.inBlob⟩, fun h => ⟨h.cacheQ, h.wf, h.inBlob⟩⟩
+
+theorem slice_self_length (B : Bytes) (lo len : Nat) :
+    slice B lo len = slice B lo (slice B lo len).length := by
+  rw [slice_length]
+  unfold slice
+  apply List.ext_getElem?
+  intro j
+  rw [List.getElem?_take, List.getElem?_take, List.getElem?_drop]
+  by_cases h1 : j < len
+  · by_cases h2 : j < min len (B.length - lo)
+    · rw [if_pos h1, if_pos h2]
+    · rw [if_pos h1, if_neg h2, List.getElem?_eq_none (by omega)]
+  · rw [if_neg h1, if_neg (by omega)]
+
+theorem goodQ_exact (P : Params) (B : Bytes) : GoodQ P B (QExact P B) :=
+  ⟨fun _ hg => ⟨rfl, hg⟩, fun c d h => by rw [h.1]; exact slice_self_length B _ _⟩
+
+theorem goodQ_prefix (P : Params) (B : Bytes) : GoodQ P B (QPrefix P B) :=
+  ⟨fun c hg => ⟨slice_self_length B _ _, hg⟩, fun _ _ h => h.1⟩
+
+theorem qprefix_take (P : Params) (B : Bytes) (c : Chunk) (d : Bytes) (k : Nat)
+    (h : QPrefix P B c d) : QPrefix P B c (d.take k) := by
+  refine ⟨?_, h.2⟩
+  conv => lhs; rw [h.1]
+  rw [take_slice, List.length_take]
 
 theorem Cache.get_put_some (cache : Cache) (c c' : Chunk) (d d' : Bytes)
     (h : (cache.put c d).get c' = some d') : cache.get c' = some d' ∨ (c' = c ∧ d' = d) := by
@@ -467,17 +528,18 @@ theorem Cache.get_put_some (cache : Cache) (c c' : Chunk) (d d' : Bytes)
       · subst hcc; simp at h; exact ⟨rfl, h.symm⟩
       · simp [hcc] at h
 
-theorem inv_commit (P : Params) (B : Bytes) (hc : 0 < P.chunk) (s : St) (c : Chunk) (d : Bytes)
-    (hs : Inv P B s) (hg : GridChunk P c) (hd : d = slice B c.b c.size) :
-    Inv P B { cache := s.cache.put c d, fetched := add s.fetched c.toRegion } ∧
+theorem inv_commit (P : Params) (B : Bytes) (Q : Chunk → Bytes → Prop) (hQ : GoodQ P B Q)
+    (hc : 0 < P.chunk) (s : St) (c : Chunk) (d : Bytes)
+    (hs : InvQ P Q s) (hg : GridChunk P c) (hd : d = slice B c.b c.size) :
+    InvQ P Q { cache := s.cache.put c d, fetched := add s.fetched c.toRegion } ∧
       CovSub s { cache := s.cache.put c d, fetched := add s.fetched c.toRegion } := by
   have hle := hg.le hc
   have hr : c.toRegion.b ≤ c.toRegion.e := by simp only [Chunk.toRegion]; omega
   refine ⟨⟨?_, ?_, ?_⟩, ?_⟩
   · intro c' d' h
     rcases Cache.get_put_some _ _ _ _ _ h with h | ⟨rfl, rfl⟩
-    · exact hs.cacheOK c' d' h
-    · exact ⟨hd, hg⟩
+    · exact hs.cacheQ c' d' h
+    · rw [hd]; exact hQ.put _ hg
   · exact SV.Props.C06.add_wf _ _ hs.wf hr
   · exact SV.Props.C06.add_inBlob _ _ _ hs.wf hr hs.inBlob
       (by simp only [Chunk.toRegion]; omega)
@@ -494,10 +556,11 @@ theorem storeChunks_cons (s : St) (stream : Bytes) (c : Chunk) (cs : List Chunk)
         (R.1, R.2.map ((c, stream.take c.size) :: ·)) := by
   simp only [storeChunks]
 
-theorem storeChunks_spec (P : Params) (B : Bytes) (hc : 0 < P.chunk) (e : Nat) :
-    ∀ fuel i (s : St) (stream : Bytes), Inv P B s → i % P.chunk = 0 →
+theorem storeChunks_spec (P : Params) (B : Bytes) (Q : Chunk → Bytes → Prop) (hQ : GoodQ P B Q)
+    (hc : 0 < P.chunk) (e : Nat) :
+    ∀ fuel i (s : St) (stream : Bytes), InvQ P Q s → i % P.chunk = 0 →
       (i < P.size → stream = slice B i stream.length) →
-      Inv P B (storeChunks s stream (chunksFrom P e fuel i)).1 ∧
+      InvQ P Q (storeChunks s stream (chunksFrom P e fuel i)).1 ∧
       CovSub s (storeChunks s stream (chunksFrom P e fuel i)).1 ∧
       ∀ got, (storeChunks s stream (chunksFrom P e fuel i)).2 = some got → Exact P B got := by
   intro fuel
@@ -521,7 +584,7 @@ theorem storeChunks_spec (P : Params) (B : Bytes) (hc : 0 < P.chunk) (e : Nat) :
             = slice B i (Chunk.size ⟨i, min (i + P.chunk - 1) (P.size - 1)⟩) := by
           conv => lhs; rw [hst']
           rw [take_slice]; congr 1; omega
-        obtain ⟨hinv', hsub'⟩ := inv_commit P B hc s _ _ hs hg hd
+        obtain ⟨hinv', hsub'⟩ := inv_commit P B Q hQ hc s _ _ hs hg hd
         have hal : (i + P.chunk) % P.chunk = 0 := by rw [Nat.add_mod_right]; exact hi
         have hnext : i + P.chunk < P.size →
             stream.drop (Chunk.size ⟨i, min (i + P.chunk - 1) (P.size - 1)⟩) =
@@ -560,9 +623,10 @@ theorem storeParts_cons (P : Params) (s : St) (p : Part) (ps : List Part) :
   · simp only [storeParts, walkChunks, if_neg h]
     rcases storeChunks s p.data (chunksFrom P p.e (P.size + 1) p.b) with ⟨s', _ | got⟩ <;> rfl
 
-theorem storeParts_spec (P : Params) (B : Bytes) (hc : 0 < P.chunk) :
-    ∀ (ps : List Part) (s : St), Inv P B s → (∀ p ∈ ps, HonestPart B p) →
-      Inv P B (storeParts P s ps).1 ∧ CovSub s (storeParts P s ps).1 ∧
+theorem storeParts_spec (P : Params) (B : Bytes) (Q : Chunk → Bytes → Prop) (hQ : GoodQ P B Q)
+    (hc : 0 < P.chunk) :
+    ∀ (ps : List Part) (s : St), InvQ P Q s → (∀ p ∈ ps, HonestPart B p) →
+      InvQ P Q (storeParts P s ps).1 ∧ CovSub s (storeParts P s ps).1 ∧
       ∀ got, (storeParts P s ps).2 = some got → Exact P B got := by
   intro ps
   induction ps with
@@ -578,7 +642,7 @@ theorem storeParts_spec (P : Params) (B : Bytes) (hc : 0 < P.chunk) :
     · rename_i hal
       have hal : p.b % P.chunk = 0 := by simpa using hal
       have hp : HonestPart B p := hh p (List.mem_cons_self ..)
-      obtain ⟨h1, h2, h3⟩ := storeChunks_spec P B hc p.e (P.size + 1) p.b s p.data hs hal
+      obtain ⟨h1, h2, h3⟩ := storeChunks_spec P B Q hQ hc p.e (P.size + 1) p.b s p.data hs hal
         (fun _ => hp)
       simp only
       generalize storeChunks s p.data (chunksFrom P p.e (P.size + 1) p.b) = R at h1 h2 h3
@@ -597,9 +661,10 @@ theorem storeParts_spec (P : Params) (B : Bytes) (hc : 0 < P.chunk) :
         · exact h3 got1 rfl cd hcd
         · exact k3 got' hg' cd hcd
 
-theorem fetchMissing_spec (P : Params) (B : Bytes) (hc : 0 < P.chunk) (s : St)
-    (missing : List Chunk) (reply : Reply) (hs : Inv P B s) (hr : HonestReply B reply) :
-    Inv P B (fetchMissing P s missing reply).1 ∧ CovSub s (fetchMissing P s missing reply).1 ∧
+theorem fetchMissing_spec (P : Params) (B : Bytes) (Q : Chunk → Bytes → Prop) (hQ : GoodQ P B Q)
+    (hc : 0 < P.chunk) (s : St)
+    (missing : List Chunk) (reply : Reply) (hs : InvQ P Q s) (hr : HonestReply B reply) :
+    InvQ P Q (fetchMissing P s missing reply).1 ∧ CovSub s (fetchMissing P s missing reply).1 ∧
     ∀ got, (fetchMissing P s missing reply).2 = some got →
       Exact P B got ∧ ∀ c ∈ missing, ∃ cd ∈ got, cd.1 = c := by
   unfold fetchMissing
@@ -614,7 +679,7 @@ theorem fetchMissing_spec (P : Params) (B : Bytes) (hc : 0 < P.chunk) (s : St)
     | fail => exact ⟨hs, CovSub.refl s, by intro got h; cases h⟩
     | parts ps =>
       simp only
-      obtain ⟨h1, h2, h3⟩ := storeParts_spec P B hc ps s hs hr
+      obtain ⟨h1, h2, h3⟩ := storeParts_spec P B Q hQ hc ps s hs hr
       generalize storeParts P s ps = R at h1 h2 h3
       obtain ⟨s1, r1⟩ := R
       cases r1 with
@@ -650,7 +715,9 @@ theorem classify_cons (o n : Nat) (cache : Cache) (c : Chunk) (cs : List Chunk) 
 
 theorem classify_spec (o n : Nat) (cache : Cache) :
     ∀ cs : List Chunk,
-      (∀ cd ∈ (classify o n cache cs).1, cache.get cd.1 = some cd.2 ∧ cd.1 ∈ cs) ∧
+      (∀ cd ∈ (classify o n cache cs).1, cache.get cd.1 = some cd.2 ∧ cd.1 ∈ cs ∧
+        (slice cd.2 (place o n cd.1).lower (place o n cd.1).expected).length
+          = (place o n cd.1).expected) ∧
       (∀ c ∈ (classify o n cache cs).2, c ∈ cs) ∧
       (∀ c ∈ cs, (∃ d, (c, d) ∈ (classify o n cache cs).1) ∨ c ∈ (classify o n cache cs).2) := by
   intro cs
@@ -663,7 +730,7 @@ theorem classify_spec (o n : Nat) (cache : Cache) :
     | none =>
       simp only
       refine ⟨?_, ?_, ?_⟩
-      · intro cd hcd; exact ⟨(ih1 cd hcd).1, List.mem_cons_of_mem _ (ih1 cd hcd).2⟩
+      · intro cd hcd; exact ⟨(ih1 cd hcd).1, List.mem_cons_of_mem _ (ih1 cd hcd).2.1, (ih1 cd hcd).2.2⟩
       · intro c' hc'
         rcases List.mem_cons.mp hc' with rfl | h
         · exact List.mem_cons_self ..
@@ -677,11 +744,12 @@ theorem classify_spec (o n : Nat) (cache : Cache) :
     | some d =>
       simp only
       split
-      · refine ⟨?_, ?_, ?_⟩
+      · rename_i hcond
+        refine ⟨?_, ?_, ?_⟩
         · intro cd hcd
           rcases List.mem_cons.mp hcd with rfl | h
-          · exact ⟨hget, List.mem_cons_self ..⟩
-          · exact ⟨(ih1 cd h).1, List.mem_cons_of_mem _ (ih1 cd h).2⟩
+          · exact ⟨hget, List.mem_cons_self .., hcond⟩
+          · exact ⟨(ih1 cd h).1, List.mem_cons_of_mem _ (ih1 cd h).2.1, (ih1 cd h).2.2⟩
         · intro c' hc'; exact List.mem_cons_of_mem _ (ih2 c' hc')
         · intro c' hc'
           rcases List.mem_cons.mp hc' with rfl | h
@@ -690,7 +758,7 @@ theorem classify_spec (o n : Nat) (cache : Cache) :
             · exact Or.inl ⟨d', List.mem_cons_of_mem _ h'⟩
             · exact Or.inr h'
       · refine ⟨?_, ?_, ?_⟩
-        · intro cd hcd; exact ⟨(ih1 cd hcd).1, List.mem_cons_of_mem _ (ih1 cd hcd).2⟩
+        · intro cd hcd; exact ⟨(ih1 cd hcd).1, List.mem_cons_of_mem _ (ih1 cd hcd).2.1, (ih1 cd hcd).2.2⟩
         · intro c' hc'
           rcases List.mem_cons.mp hc' with rfl | h
           · exact List.mem_cons_self ..
@@ -702,10 +770,35 @@ theorem classify_spec (o n : Nat) (cache : Cache) :
             · exact Or.inl h'
             · exact Or.inr (List.mem_cons_of_mem _ h')
 
-theorem lookupData_exact (P : Params) (B : Bytes) (hits got : List (Chunk × Bytes)) (c : Chunk)
-    (hh : Exact P B hits) (hg : Exact P B got)
+/-- The piece of `cd.2` that `assemble` copies is the piece of the blob that belongs there. -/
+def WindowOK (B : Bytes) (o n : Nat) (cd : Chunk × Bytes) : Prop :=
+  slice cd.2 (place o n cd.1).lower (place o n cd.1).expected =
+    slice B (o + (place o n cd.1).base) (place o n cd.1).expected
+
+/-- A cache hit on a (possibly truncated) prefix of the true data delivers the right window. -/
+theorem windowOK_of_prefix (B : Bytes) (o n : Nat) (c : Chunk) (d : Bytes)
+    (hd : d = slice B c.b d.length)
+    (hhit : (slice d (place o n c).lower (place o n c).expected).length = (place o n c).expected) :
+    WindowOK B o n (c, d) := by
+  unfold WindowOK
+  simp only
+  by_cases h0 : (place o n c).expected = 0
+  · rw [h0, slice_zero, slice_zero]
+  · rw [slice_length] at hhit
+    rw [hd, slice_slice _ _ _ _ _ (by omega)]
+    congr 1; simp only [place]; omega
+
+theorem windowOK_of_exact (P : Params) (B : Bytes) (o n : Nat) (got : List (Chunk × Bytes))
+    (h : Exact P B got) : ∀ cd ∈ got, WindowOK B o n cd := by
+  intro cd hcd
+  unfold WindowOK
+  rw [(h cd hcd).1]
+  exact place_slice B o n cd.1
+
+theorem lookupData_window (B : Bytes) (o n : Nat) (hits got : List (Chunk × Bytes)) (c : Chunk)
+    (hh : ∀ cd ∈ hits, WindowOK B o n cd) (hg : ∀ cd ∈ got, WindowOK B o n cd)
     (hc : (∃ d, (c, d) ∈ hits) ∨ ∃ cd ∈ got, cd.1 = c) :
-    lookupData hits got c = some (slice B c.b c.size) := by
+    ∃ d, lookupData hits got c = some d ∧ WindowOK B o n (c, d) := by
   unfold lookupData
   cases hf : hits.find? (fun kv => decide (kv.1 = c)) with
   | some kv =>
@@ -713,7 +806,9 @@ theorem lookupData_exact (P : Params) (B : Bytes) (hits got : List (Chunk × Byt
     have hm := List.mem_of_find?_eq_some hf
     have hp := List.find?_some hf
     simp only [decide_eq_true_eq] at hp
-    rw [(hh kv hm).1, hp]
+    refine ⟨kv.2, rfl, ?_⟩
+    have := hh kv hm
+    rw [← hp]; exact this
   | none =>
     simp only
     rw [List.find?_eq_none] at hf
@@ -727,8 +822,9 @@ theorem lookupData_exact (P : Params) (B : Bytes) (hits got : List (Chunk × Byt
         have hm := List.mem_of_find?_eq_some hf2
         have hp := List.find?_some hf2
         simp only [decide_eq_true_eq] at hp
-        simp only [Option.map_some]
-        rw [(hg kv hm).1, hp]
+        refine ⟨kv.2, rfl, ?_⟩
+        have := hg kv hm
+        rw [← hp]; exact this
 
 theorem filterMap_eq_map_of {α β} (f : α → Option β) (g : α → β) (l : List α)
     (h : ∀ a ∈ l, f a = some (g a)) : l.filterMap f = l.map g := by
@@ -757,10 +853,12 @@ theorem readAt_unfold (P : Params) (s : St) (o n : Nat) (reply : Reply) (hc : 0 
   simp only
   rcases fetchMissing P s missing reply with ⟨s', _ | got⟩ <;> rfl
 
-/-- Main lemma for `ReadAt`. -/
-theorem readAt_spec (P : Params) (B : Bytes) (hc : 0 < P.chunk) (hB : B.length = P.size)
-    (s : St) (hs : Inv P B s) (o n : Nat) (reply : Reply) (hr : HonestReply B reply) :
-    Inv P B (readAt P s o n reply).1 ∧ CovSub s (readAt P s o n reply).1 ∧
+/-- Main lemma for `ReadAt`, for any cache invariant `Q` that is at least "prefix of the true
+bytes". -/
+theorem readAt_specQ (P : Params) (B : Bytes) (Q : Chunk → Bytes → Prop) (hQ : GoodQ P B Q)
+    (hc : 0 < P.chunk) (hB : B.length = P.size)
+    (s : St) (hs : InvQ P Q s) (o n : Nat) (reply : Reply) (hr : HonestReply B reply) :
+    InvQ P Q (readAt P s o n reply).1 ∧ CovSub s (readAt P s o n reply).1 ∧
     ((readAt P s o n reply).2 = none ∨
       ∃ buf, (readAt P s o n reply).2 = some (min n (P.size - o), buf) ∧ buf.length = n ∧
         buf.take (min n (P.size - o)) = slice B o (min n (P.size - o))) := by
@@ -776,7 +874,7 @@ theorem readAt_spec (P : Params) (B : Bytes) (hc : 0 < P.chunk) (hB : B.length =
     simp only
     generalize hcs : chunksFrom P (o + n - 1) (P.size + 1) (floorU o P.chunk) = cs
     obtain ⟨hcl1, hcl2, hcl3⟩ := classify_spec o n s.cache cs
-    obtain ⟨h1, h2, h3⟩ := fetchMissing_spec P B hc s (classify o n s.cache cs).2 reply hs hr
+    obtain ⟨h1, h2, h3⟩ := fetchMissing_spec P B Q hQ hc s (classify o n s.cache cs).2 reply hs hr
     generalize fetchMissing P s (classify o n s.cache cs).2 reply = R at h1 h2 h3
     obtain ⟨s1, r1⟩ := R
     cases r1 with
@@ -785,43 +883,52 @@ theorem readAt_spec (P : Params) (B : Bytes) (hc : 0 < P.chunk) (hB : B.length =
       simp only
       refine ⟨h1, h2, Or.inr ?_⟩
       obtain ⟨hex, hall⟩ := h3 got rfl
-      have hhits : Exact P B (classify o n s.cache cs).1 := by
+      have hhits : ∀ cd ∈ (classify o n s.cache cs).1, WindowOK B o n cd := by
         intro cd hcd
-        exact hs.cacheOK cd.1 cd.2 (hcl1 cd hcd).1
+        obtain ⟨hget, _, hhit⟩ := hcl1 cd hcd
+        exact windowOK_of_prefix B o n cd.1 cd.2 (hQ.pre _ _ (hs.cacheQ cd.1 cd.2 hget)) hhit
+      have hgot := windowOK_of_exact P B o n got hex
+      have hlook : ∀ c ∈ cs, ∃ d, lookupData (classify o n s.cache cs).1 got c = some d ∧
+          WindowOK B o n (c, d) := by
+        intro c hcm
+        apply lookupData_window B o n _ _ _ hhits hgot
+        rcases hcl3 c hcm with h' | h'
+        · exact Or.inl h'
+        · exact Or.inr (hall c h')
       have hdatas : cs.filterMap (fun c => (lookupData (classify o n s.cache cs).1 got c).map
-            (fun d => (c, d))) = cs.map (fun c => (c, slice B c.b c.size)) := by
+            (fun d => (c, d))) =
+          cs.map (fun c => (c, (lookupData (classify o n s.cache cs).1 got c).getD [])) := by
         apply filterMap_eq_map_of
         intro c hcm
-        have : lookupData (classify o n s.cache cs).1 got c = some (slice B c.b c.size) := by
-          apply lookupData_exact P B _ _ _ hhits hex
-          rcases hcl3 c hcm with h' | h'
-          · exact Or.inl h'
-          · exact Or.inr (hall c h')
-        rw [this]; rfl
+        obtain ⟨d, hd, _⟩ := hlook c hcm
+        rw [hd]; rfl
       rw [hdatas, adjust_eq]
       have hn : 0 < n := by omega
       have ho : o ≤ P.size := by omega
       have ht := tiles_readAt P hc o n hn ho
       rw [hcs, adjust_eq] at ht
       have := assemble_tiles B o n (min n (P.size - o)) (by omega) (by omega)
-        (cs.map (fun c => (c, slice B c.b c.size))) 0 (List.replicate n 0) (by simp)
+        (cs.map (fun c => (c, (lookupData (classify o n s.cache cs).1 got c).getD []))) 0
+        (List.replicate n 0) (by simp)
         (by rw [List.map_map]; exact ht)
         (by
           intro cd hcd
-          obtain ⟨c, _, rfl⟩ := List.mem_map.mp hcd
-          exact place_slice B o n c)
+          obtain ⟨c, hcm, rfl⟩ := List.mem_map.mp hcd
+          obtain ⟨d, hd, hw⟩ := hlook c hcm
+          rw [hd]; exact hw)
         (by simp [slice])
       exact ⟨_, rfl, this.2, this.1⟩
 
-theorem cacheAt_spec (P : Params) (B : Bytes) (hc : 0 < P.chunk)
-    (s : St) (hs : Inv P B s) (o n : Nat) (reply : Reply) (hr : HonestReply B reply) :
-    Inv P B (cacheAt P s o n reply).1 ∧ CovSub s (cacheAt P s o n reply).1 := by
+theorem cacheAt_specQ (P : Params) (B : Bytes) (Q : Chunk → Bytes → Prop) (hQ : GoodQ P B Q)
+    (hc : 0 < P.chunk)
+    (s : St) (hs : InvQ P Q s) (o n : Nat) (reply : Reply) (hr : HonestReply B reply) :
+    InvQ P Q (cacheAt P s o n reply).1 ∧ CovSub s (cacheAt P s o n reply).1 := by
   unfold cacheAt
   cases walkChunks P (floorU o P.chunk) (ceilU (o + n - 1) P.chunk - 1) with
   | none => exact ⟨hs, CovSub.refl s⟩
   | some cs =>
     simp only
-    obtain ⟨h1, h2, _⟩ := fetchMissing_spec P B hc s
+    obtain ⟨h1, h2, _⟩ := fetchMissing_spec P B Q hQ hc s
       (cs.filter (fun c => (s.cache.get c).isNone)) reply hs hr
     generalize fetchMissing P s (cs.filter (fun c => (s.cache.get c).isNone)) reply = R at h1 h2
     obtain ⟨s1, r1⟩ := R
@@ -831,11 +938,12 @@ theorem cacheAt_spec (P : Params) (B : Bytes) (hc : 0 < P.chunk)
 def dropEntry (s : St) (c : Chunk) : St :=
   { s with cache := s.cache.filter fun kv => kv.1 ≠ c }
 
-theorem dropEntry_spec (P : Params) (B : Bytes) (s : St) (hs : Inv P B s) (c : Chunk) :
-    Inv P B (dropEntry s c) ∧ CovSub s (dropEntry s c) := by
+theorem dropEntry_specQ (P : Params) (Q : Chunk → Bytes → Prop) (s : St) (hs : InvQ P Q s)
+    (c : Chunk) :
+    InvQ P Q (dropEntry s c) ∧ CovSub s (dropEntry s c) := by
   refine ⟨⟨?_, hs.wf, hs.inBlob⟩, CovSub.refl s⟩
   intro c' d h
-  apply hs.cacheOK c' d
+  apply hs.cacheQ c' d
   simp only [dropEntry, Cache.get, List.find?_filter] at h ⊢
   rw [Option.map_eq_some_iff] at h ⊢
   obtain ⟨kv, hkv, rfl⟩ := h
@@ -852,23 +960,67 @@ theorem dropEntry_spec (P : Params) (B : Bytes) (s : St) (hs : Inv P B s) (c : C
   intro hac
   exact this ⟨by rw [hac, ← hp.2]; exact hp.1, hac⟩
 
+/-- A cache that returns short data for one entry (the `trunc` op of the driver): the entry is
+cut to its first `keep` bytes. -/
+def truncEntry (s : St) (c : Chunk) (keep : Nat) : St :=
+  { s with cache := s.cache.map fun kv => if kv.1 = c then (kv.1, kv.2.take keep) else kv }
+
+/-- `Q` survives truncation of an entry. -/
+def TruncClosed (Q : Chunk → Bytes → Prop) : Prop := ∀ c d k, Q c d → Q c (d.take k)
+
+theorem truncEntry_specQ (P : Params) (Q : Chunk → Bytes → Prop) (hT : TruncClosed Q)
+    (s : St) (hs : InvQ P Q s) (c : Chunk) (keep : Nat) :
+    InvQ P Q (truncEntry s c keep) ∧ CovSub s (truncEntry s c keep) := by
+  refine ⟨⟨?_, hs.wf, hs.inBlob⟩, CovSub.refl s⟩
+  intro c' d h
+  simp only [truncEntry, Cache.get, List.find?_map] at h
+  have hfun : ((fun kv : Chunk × Bytes => decide (kv.1 = c')) ∘
+      fun kv : Chunk × Bytes => if kv.1 = c then (kv.1, kv.2.take keep) else kv)
+      = fun kv => decide (kv.1 = c') := by
+    funext kv; simp only [Function.comp]; split <;> rfl
+  rw [hfun] at h
+  cases hf : s.cache.find? (fun kv => decide (kv.1 = c')) with
+  | none => rw [hf] at h; simp at h
+  | some kv =>
+    rw [hf] at h
+    simp only [Option.map_some, Option.some.injEq] at h
+    have hp := List.find?_some hf
+    simp only [decide_eq_true_eq] at hp
+    have hq : Q c' kv.2 := hs.cacheQ c' kv.2 (by simp only [Cache.get, hf, Option.map_some])
+    split at h
+    · subst h; exact hT _ _ _ hq
+    · subst h; exact hq
+
 /-! ### histories -/
 
 inductive Op
   | read (o n : Nat) (reply : Reply)
   | cache (o n : Nat) (reply : Reply)
   | drop (c : Chunk)
+  | trunc (c : Chunk) (keep : Nat)
 
 def Op.Honest (B : Bytes) : Op → Prop
   | .read _ _ r => HonestReply B r
   | .cache _ _ r => HonestReply B r
   | .drop _ => True
+  | .trunc _ _ => True
+
+instance (B : Bytes) : (op : Op) → Decidable (op.Honest B)
+  | .read _ _ r => by unfold Op.Honest; infer_instance
+  | .cache _ _ r => by unfold Op.Honest; infer_instance
+  | .drop _ => by unfold Op.Honest; infer_instance
+  | .trunc _ _ => by unfold Op.Honest; infer_instance
+
+def Op.isTrunc : Op → Bool
+  | .trunc _ _ => true
+  | _ => false
 
 /-- One operation on the blob; for a read the triple `(o, n, result)` is reported. -/
 def stepOp (P : Params) (s : St) : Op → St × Option (Nat × Nat × Option (Nat × Bytes))
   | .read o n r => ((readAt P s o n r).1, some (o, n, (readAt P s o n r).2))
   | .cache o n r => ((cacheAt P s o n r).1, none)
   | .drop c => (dropEntry s c, none)
+  | .trunc c k => (truncEntry s c k, none)
 
 /-- State after a history. -/
 def runOps (P : Params) (s : St) (ops : List Op) : St := ops.foldl (fun s op => (stepOp P s op).1) s
@@ -886,36 +1038,54 @@ def ReadExact (P : Params) (B : Bytes) (o n : Nat) (r : Option (Nat × Bytes)) :
   r = none ∨ ∃ buf, r = some (min n (P.size - o), buf) ∧ buf.length = n ∧
     buf.take (min n (P.size - o)) = slice B o (min n (P.size - o))
 
-theorem stepOp_spec (P : Params) (B : Bytes) (hc : 0 < P.chunk) (hB : B.length = P.size)
-    (s : St) (hs : Inv P B s) (op : Op) (ho : op.Honest B) :
-    Inv P B (stepOp P s op).1 ∧ CovSub s (stepOp P s op).1 ∧
+theorem stepOp_specQ (P : Params) (B : Bytes) (Q : Chunk → Bytes → Prop) (hQ : GoodQ P B Q)
+    (hc : 0 < P.chunk) (hB : B.length = P.size)
+    (s : St) (hs : InvQ P Q s) (op : Op) (ho : op.Honest B)
+    (hT : op.isTrunc = false ∨ TruncClosed Q) :
+    InvQ P Q (stepOp P s op).1 ∧ CovSub s (stepOp P s op).1 ∧
       ∀ o n r, (stepOp P s op).2 = some (o, n, r) → ReadExact P B o n r := by
   cases op with
   | read o n r =>
-    obtain ⟨h1, h2, h3⟩ := readAt_spec P B hc hB s hs o n r ho
+    obtain ⟨h1, h2, h3⟩ := readAt_specQ P B Q hQ hc hB s hs o n r ho
     refine ⟨h1, h2, ?_⟩
     intro o' n' r' h
     simp only [stepOp, Option.some.injEq, Prod.mk.injEq] at h
     obtain ⟨rfl, rfl, rfl⟩ := h
     exact h3
   | cache o n r =>
-    obtain ⟨h1, h2⟩ := cacheAt_spec P B hc s hs o n r ho
+    obtain ⟨h1, h2⟩ := cacheAt_specQ P B Q hQ hc s hs o n r ho
     exact ⟨h1, h2, by intro o' n' r' h; simp [stepOp] at h⟩
   | drop c =>
-    obtain ⟨h1, h2⟩ := dropEntry_spec P B s hs c
+    obtain ⟨h1, h2⟩ := dropEntry_specQ P Q s hs c
     exact ⟨h1, h2, by intro o' n' r' h; simp [stepOp] at h⟩
+  | trunc c k =>
+    rcases hT with hT | hT
+    · simp [Op.isTrunc] at hT
+    · obtain ⟨h1, h2⟩ := truncEntry_specQ P Q hT s hs c k
+      exact ⟨h1, h2, by intro o' n' r' h; simp [stepOp] at h⟩
 
-theorem runOps_spec (P : Params) (B : Bytes) (hc : 0 < P.chunk) (hB : B.length = P.size) :
-    ∀ (ops : List Op) (s : St), Inv P B s → (∀ op ∈ ops, op.Honest B) →
-      Inv P B (runOps P s ops) ∧ CovSub s (runOps P s ops) ∧
+theorem runOps_specQ (P : Params) (B : Bytes) (Q : Chunk → Bytes → Prop) (hQ : GoodQ P B Q)
+    (hc : 0 < P.chunk) (hB : B.length = P.size) :
+    ∀ (ops : List Op) (s : St), InvQ P Q s → (∀ op ∈ ops, op.Honest B) →
+      ((∀ op ∈ ops, op.isTrunc = false) ∨ TruncClosed Q) →
+      InvQ P Q (runOps P s ops) ∧ CovSub s (runOps P s ops) ∧
       ∀ t ∈ trace P s ops, ReadExact P B t.1 t.2.1 t.2.2 := by
   intro ops
   induction ops with
-  | nil => intro s hs _; exact ⟨hs, CovSub.refl s, by intro t ht; simp [trace] at ht⟩
+  | nil => intro s hs _ _; exact ⟨hs, CovSub.refl s, by intro t ht; simp [trace] at ht⟩
   | cons op ops ih =>
-    intro s hs hh
-    obtain ⟨h1, h2, h3⟩ := stepOp_spec P B hc hB s hs op (hh op (List.mem_cons_self ..))
-    obtain ⟨k1, k2, k3⟩ := ih (stepOp P s op).1 h1 (fun op' h' => hh op' (List.mem_cons_of_mem _ h'))
+    intro s hs hh hT
+    have hT1 : op.isTrunc = false ∨ TruncClosed Q := by
+      rcases hT with h | h
+      · exact Or.inl (h op (List.mem_cons_self ..))
+      · exact Or.inr h
+    have hT2 : (∀ op ∈ ops, op.isTrunc = false) ∨ TruncClosed Q := by
+      rcases hT with h | h
+      · exact Or.inl (fun op' h' => h op' (List.mem_cons_of_mem _ h'))
+      · exact Or.inr h
+    obtain ⟨h1, h2, h3⟩ := stepOp_specQ P B Q hQ hc hB s hs op (hh op (List.mem_cons_self ..)) hT1
+    obtain ⟨k1, k2, k3⟩ := ih (stepOp P s op).1 h1
+      (fun op' h' => hh op' (List.mem_cons_of_mem _ h')) hT2
     refine ⟨k1, CovSub.trans h2 k2, ?_⟩
     intro t ht
     unfold trace at ht
@@ -927,9 +1097,46 @@ theorem runOps_spec (P : Params) (B : Bytes) (hc : 0 < P.chunk) (hB : B.length =
       · obtain ⟨o, n, r⟩ := t; exact h3 o n r hr
       · exact k3 t ht
 
+/-! ### the two instances: exact cache (`Inv`) and possibly truncated cache -/
+
+theorem readAt_spec (P : Params) (B : Bytes) (hc : 0 < P.chunk) (hB : B.length = P.size)
+    (s : St) (hs : Inv P B s) (o n : Nat) (reply : Reply) (hr : HonestReply B reply) :
+    Inv P B (readAt P s o n reply).1 ∧ CovSub s (readAt P s o n reply).1 ∧
+    ((readAt P s o n reply).2 = none ∨
+      ∃ buf, (readAt P s o n reply).2 = some (min n (P.size - o), buf) ∧ buf.length = n ∧
+        buf.take (min n (P.size - o)) = slice B o (min n (P.size - o))) := by
+  obtain ⟨h1, h2, h3⟩ := readAt_specQ P B _ (goodQ_exact P B) hc hB s ((inv_iff P B s).mp hs)
+    o n reply hr
+  exact ⟨(inv_iff P B _).mpr h1, h2, h3⟩
+
+theorem cacheAt_spec (P : Params) (B : Bytes) (hc : 0 < P.chunk)
+    (s : St) (hs : Inv P B s) (o n : Nat) (reply : Reply) (hr : HonestReply B reply) :
+    Inv P B (cacheAt P s o n reply).1 ∧ CovSub s (cacheAt P s o n reply).1 := by
+  obtain ⟨h1, h2⟩ := cacheAt_specQ P B _ (goodQ_exact P B) hc s ((inv_iff P B s).mp hs)
+    o n reply hr
+  exact ⟨(inv_iff P B _).mpr h1, h2⟩
+
+theorem runOps_spec (P : Params) (B : Bytes) (hc : 0 < P.chunk) (hB : B.length = P.size)
+    (ops : List Op) (s : St) (hs : Inv P B s) (hh : ∀ op ∈ ops, op.Honest B)
+    (hnt : ∀ op ∈ ops, op.isTrunc = false) :
+    Inv P B (runOps P s ops) ∧ CovSub s (runOps P s ops) ∧
+      ∀ t ∈ trace P s ops, ReadExact P B t.1 t.2.1 t.2.2 := by
+  obtain ⟨h1, h2, h3⟩ := runOps_specQ P B _ (goodQ_exact P B) hc hB ops s
+    ((inv_iff P B s).mp hs) hh (Or.inl hnt)
+  exact ⟨(inv_iff P B _).mpr h1, h2, h3⟩
+
+theorem truncClosed_prefix (P : Params) (B : Bytes) : TruncClosed (QPrefix P B) :=
+  fun c d k h => qprefix_take P B c d k h
+
+theorem invQ_of_inv (P : Params) (B : Bytes) (s : St) (hs : Inv P B s) :
+    InvQ P (QPrefix P B) s :=
+  ⟨fun c d h => ⟨(goodQ_exact P B).pre c d (hs.cacheOK c d h), (hs.cacheOK c d h).2⟩,
+    hs.wf, hs.inBlob⟩
+
 /-- `FetchedSize` of a state satisfying the invariant counts distinct bytes, so coverage growth
 means size growth, bounded by the blob size. -/
-theorem fetchedSize_of_inv (P : Params) (B : Bytes) (s s' : St) (hs : Inv P B s) (hs' : Inv P B s')
+theorem fetchedSize_of_inv (P : Params) (Q : Chunk → Bytes → Prop) (s s' : St)
+    (hs : InvQ P Q s) (hs' : InvQ P Q s')
     (hsub : CovSub s s') :
     totalSize s.fetched ≤ totalSize s'.fetched ∧ totalSize s'.fetched ≤ P.size := by
   rw [totalSize_eq_count P.size _ hs.wf hs.inBlob, totalSize_eq_count P.size _ hs'.wf hs'.inBlob]
@@ -1178,6 +1385,406 @@ theorem fetchSM_redirect (st : FSt) (retry : Bool) (script : List Status) (refre
     case forbidden403 => cases retry <;> cases refresh <;> cases s2 <;> simp [fetchSM]
     case badReq400 => cases retry <;> cases sr <;> cases s2 <;> simp [fetchSM]
     all_goals simp [fetchSM]
+
+/-! ### requested ranges -/
+
+/-- The squashed request set of `httpFetcher.fetch`. -/
+def reqSet (missing : List Chunk) : List Region :=
+  missing.foldl (fun acc c => add acc c.toRegion) []
+
+theorem requestRanges_eq (single : Bool) (missing : List Chunk) :
+    requestRanges single missing =
+      if single then (match superRegion (reqSet missing) with | some r => [r] | none => [])
+      else reqSet missing := rfl
+
+theorem pairwise_mem {α} {R : α → α → Prop} : ∀ {l : List α}, l.Pairwise R →
+    ∀ {a b}, a ∈ l → b ∈ l → a = b ∨ R a b ∨ R b a := by
+  intro l
+  induction l with
+  | nil => intro _ a b ha; simp at ha
+  | cons x xs ih =>
+    intro hp a b ha hb
+    rw [List.pairwise_cons] at hp
+    rcases List.mem_cons.mp ha with rfl | ha' <;> rcases List.mem_cons.mp hb with rfl | hb'
+    · exact Or.inl rfl
+    · exact Or.inr (Or.inl (hp.1 b hb'))
+    · exact Or.inr (Or.inr (hp.1 a ha'))
+    · exact ih hp.2 ha' hb'
+
+/-- In a well-formed set the bytes just outside a region are not covered. -/
+theorem wf_not_cov_ends (rs : List Region) (h : WF rs) (l : Region) (hl : l ∈ rs) :
+    ¬ cov (l.b - 1) rs ∧ ¬ cov (l.e + 1) rs := by
+  have hle := h.1 l hl
+  constructor
+  · rintro ⟨l', hl', h1, h2⟩
+    have hle' := h.1 l' hl'
+    rcases pairwise_mem h.2 hl hl' with rfl | h3 | h3 <;> omega
+  · rintro ⟨l', hl', h1, h2⟩
+    have hle' := h.1 l' hl'
+    rcases pairwise_mem h.2 hl hl' with rfl | h3 | h3 <;> omega
+
+/-- The end points of the regions of `add rs r` are end points of `rs` or of `r`. -/
+theorem add_ends (Sb Se : Int → Prop) (rs : List Region) (r : Region) (h : WF rs)
+    (hr : r.b ≤ r.e) (he : ∀ l ∈ rs, Sb l.b ∧ Se l.e) (hb : Sb r.b) (hee : Se r.e) :
+    ∀ l ∈ add rs r, Sb l.b ∧ Se l.e := by
+  intro l hl
+  have hwf := SV.Props.C06.add_wf rs r h hr
+  have hle := hwf.1 l hl
+  obtain ⟨hn1, hn2⟩ := wf_not_cov_ends _ hwf l hl
+  have hc1 : cov l.b (add rs r) := ⟨l, hl, by omega, hle⟩
+  have hc2 : cov l.e (add rs r) := ⟨l, hl, hle, by omega⟩
+  rw [SV.Props.C06.add_cov rs r h hr] at hn1 hn2 hc1 hc2
+  constructor
+  · rcases hc1 with ⟨l', hl', h1, h2⟩ | ⟨h1, h2⟩
+    · have : l'.b = l.b := by
+        by_cases hlt : l'.b < l.b
+        · exact absurd (Or.inl ⟨l', hl', by omega, by omega⟩) hn1
+        · omega
+      rw [← this]; exact (he l' hl').1
+    · have : r.b = l.b := by
+        by_cases hlt : r.b < l.b
+        · exact absurd (Or.inr ⟨by omega, by omega⟩) hn1
+        · omega
+      rw [← this]; exact hb
+  · rcases hc2 with ⟨l', hl', h1, h2⟩ | ⟨h1, h2⟩
+    · have : l'.e = l.e := by
+        by_cases hlt : l.e < l'.e
+        · exact absurd (Or.inl ⟨l', hl', by omega, by omega⟩) hn2
+        · omega
+      rw [← this]; exact (he l' hl').2
+    · have : r.e = l.e := by
+        by_cases hlt : l.e < r.e
+        · exact absurd (Or.inr ⟨by omega, by omega⟩) hn2
+        · omega
+      rw [← this]; exact hee
+
+theorem reqSet_spec (Sb Se : Int → Prop) :
+    ∀ (missing : List Chunk) (acc : List Region), WF acc →
+      (∀ c ∈ missing, c.b ≤ c.e) →
+      (∀ l ∈ acc, Sb l.b ∧ Se l.e) → (∀ c ∈ missing, Sb c.b ∧ Se c.e) →
+      WF (missing.foldl (fun acc c => add acc c.toRegion) acc) ∧
+      (∀ x, cov x (missing.foldl (fun acc c => add acc c.toRegion) acc) ↔
+        cov x acc ∨ ∃ c ∈ missing, (c.b : Int) ≤ x ∧ x ≤ c.e) ∧
+      ∀ l ∈ missing.foldl (fun acc c => add acc c.toRegion) acc, Sb l.b ∧ Se l.e := by
+  intro missing
+  induction missing with
+  | nil => intro acc h _ he _; exact ⟨h, by intro x; simp, he⟩
+  | cons c cs ih =>
+    intro acc h hne he hm
+    have hr : c.toRegion.b ≤ c.toRegion.e := by
+      have := hne c (List.mem_cons_self ..)
+      simp only [Chunk.toRegion]; omega
+    have hmc := hm c (List.mem_cons_self ..)
+    obtain ⟨h1, h2, h3⟩ := ih (add acc c.toRegion) (SV.Props.C06.add_wf _ _ h hr)
+      (fun c' h' => hne c' (List.mem_cons_of_mem _ h'))
+      (add_ends Sb Se acc c.toRegion h hr he hmc.1 hmc.2)
+      (fun c' h' => hm c' (List.mem_cons_of_mem _ h'))
+    refine ⟨h1, ?_, h3⟩
+    intro x
+    simp only [List.foldl_cons]
+    rw [h2 x, SV.Props.C06.add_cov _ _ h hr]
+    simp only [Chunk.toRegion, List.mem_cons]
+    constructor
+    · rintro ((h' | h') | ⟨c', hc', h'⟩)
+      · exact Or.inl h'
+      · exact Or.inr ⟨c, Or.inl rfl, h'⟩
+      · exact Or.inr ⟨c', Or.inr hc', h'⟩
+    · rintro (h' | ⟨c', rfl | hc', h'⟩)
+      · exact Or.inl (Or.inl h')
+      · exact Or.inl (Or.inr h')
+      · exact Or.inr ⟨c', hc', h'⟩
+
+/-- One step of the `superRegion` loop. -/
+def superStep (s reg : Region) : Region :=
+  let s := if reg.b < s.b then { s with b := reg.b } else s
+  if reg.e > s.e then { s with e := reg.e } else s
+
+theorem superStep_spec (s reg : Region) :
+    (superStep s reg).b ≤ s.b ∧ (superStep s reg).b ≤ reg.b ∧
+    ((superStep s reg).b = s.b ∨ (superStep s reg).b = reg.b) ∧
+    s.e ≤ (superStep s reg).e ∧ reg.e ≤ (superStep s reg).e ∧
+    ((superStep s reg).e = s.e ∨ (superStep s reg).e = reg.e) := by
+  unfold superStep
+  by_cases h1 : reg.b < s.b <;> by_cases h2 : reg.e > s.e <;> simp [h1, h2] <;> omega
+
+theorem superFold_spec : ∀ (l : List Region) (s : Region),
+    (l.foldl superStep s).b ≤ s.b ∧ s.e ≤ (l.foldl superStep s).e ∧
+    (∀ x ∈ l, (l.foldl superStep s).b ≤ x.b ∧ x.e ≤ (l.foldl superStep s).e) ∧
+    ((l.foldl superStep s).b = s.b ∨ ∃ x ∈ l, (l.foldl superStep s).b = x.b) ∧
+    ((l.foldl superStep s).e = s.e ∨ ∃ x ∈ l, (l.foldl superStep s).e = x.e) := by
+  intro l
+  induction l with
+  | nil => intro s; simp
+  | cons a l ih =>
+    intro s
+    obtain ⟨i1, i2, i3, i4, i5⟩ := ih (superStep s a)
+    obtain ⟨s1, s2, s3, s4, s5, s6⟩ := superStep_spec s a
+    simp only [List.foldl_cons]
+    refine ⟨by omega, by omega, ?_, ?_, ?_⟩
+    · intro x hx
+      rcases List.mem_cons.mp hx with rfl | hx
+      · constructor <;> omega
+      · exact i3 x hx
+    · rcases i4 with h | ⟨x, hx, h⟩
+      · rcases s3 with h' | h'
+        · exact Or.inl (by omega)
+        · exact Or.inr ⟨a, List.mem_cons_self .., by omega⟩
+      · exact Or.inr ⟨x, List.mem_cons_of_mem _ hx, h⟩
+    · rcases i5 with h | ⟨x, hx, h⟩
+      · rcases s6 with h' | h'
+        · exact Or.inl (by omega)
+        · exact Or.inr ⟨a, List.mem_cons_self .., by omega⟩
+      · exact Or.inr ⟨x, List.mem_cons_of_mem _ hx, h⟩
+
+theorem superRegion_spec (rs : List Region) :
+    (rs = [] → superRegion rs = none) ∧
+    (rs ≠ [] → ∃ r, superRegion rs = some r ∧ (∀ x ∈ rs, r.b ≤ x.b ∧ x.e ≤ r.e) ∧
+      (∃ x ∈ rs, r.b = x.b) ∧ (∃ x ∈ rs, r.e = x.e)) := by
+  cases rs with
+  | nil => exact ⟨fun _ => rfl, fun h => absurd rfl h⟩
+  | cons r0 rest =>
+    refine ⟨fun h => (by cases h), fun _ => ?_⟩
+    obtain ⟨_, _, i3, i4, i5⟩ := superFold_spec (r0 :: rest) r0
+    refine ⟨(r0 :: rest).foldl superStep r0, rfl, i3, ?_, ?_⟩
+    · rcases i4 with h | h
+      · exact ⟨r0, List.mem_cons_self .., h⟩
+      · exact h
+    · rcases i5 with h | h
+      · exact ⟨r0, List.mem_cons_self .., h⟩
+      · exact h
+
+/-- The requested ranges cover every byte of every missing chunk, in both modes. -/
+theorem request_covers (missing : List Chunk) (hne : ∀ c ∈ missing, c.b ≤ c.e) (single : Bool) :
+    ∀ c ∈ missing, ∀ x : Int, (c.b : Int) ≤ x → x ≤ c.e → cov x (requestRanges single missing) := by
+  intro c hc x h1 h2
+  obtain ⟨_, hcov, _⟩ := reqSet_spec (fun _ => True) (fun _ => True) missing []
+    ⟨by simp, by simp⟩ hne (by simp) (by simp)
+  have hx : cov x (reqSet missing) := (hcov x).mpr (Or.inr ⟨c, hc, h1, h2⟩)
+  rw [requestRanges_eq]
+  cases single with
+  | false => exact hx
+  | true =>
+    simp only [if_true]
+    obtain ⟨l, hl, hl1, hl2⟩ := hx
+    have hne' : reqSet missing ≠ [] := by intro h; rw [h] at hl; simp at hl
+    obtain ⟨r, hr, hall, _, _⟩ := (superRegion_spec (reqSet missing)).2 hne'
+    rw [hr]
+    have := hall l hl
+    exact ⟨r, List.mem_cons_self .., by omega, by omega⟩
+
+/-- Start / end of a region coincide with the start / end of a grid chunk. -/
+def GridStart (P : Params) (x : Int) : Prop := ∃ m : Chunk, GridChunk P m ∧ (m.b : Int) = x
+def GridEnd (P : Params) (x : Int) : Prop := ∃ m : Chunk, GridChunk P m ∧ (m.e : Int) = x
+
+theorem requestRanges_grid (P : Params) (hc : 0 < P.chunk) (missing : List Chunk)
+    (hm : ∀ c ∈ missing, GridChunk P c) (single : Bool) :
+    ∀ r ∈ requestRanges single missing, r.b ≤ r.e ∧ GridStart P r.b ∧ GridEnd P r.e := by
+  obtain ⟨hwf, _, hends⟩ := reqSet_spec (GridStart P) (GridEnd P) missing []
+    ⟨by simp, by simp⟩ (fun c h => ((hm c h).le hc).1) (by simp)
+    (fun c h => ⟨⟨c, hm c h, rfl⟩, ⟨c, hm c h, rfl⟩⟩)
+  intro r hr
+  rw [requestRanges_eq] at hr
+  cases single with
+  | false => exact ⟨hwf.1 r hr, hends r hr⟩
+  | true =>
+    simp only [if_true] at hr
+    by_cases hne' : reqSet missing = []
+    · rw [(superRegion_spec _).1 hne'] at hr; simp at hr
+    · obtain ⟨r', hr', hall, ⟨x, hx, hxb⟩, ⟨y, hy, hye⟩⟩ := (superRegion_spec _).2 hne'
+      rw [hr'] at hr
+      simp only [List.mem_singleton] at hr
+      subst hr
+      have h1 := hall x hx
+      have h2 := hwf.1 x hx
+      refine ⟨by omega, ?_, ?_⟩
+      · rw [hxb]; exact (hends x hx).1
+      · rw [hye]; exact (hends y hy).2
+
+theorem aligned_add_le {a b c : Nat} (ha : a % c = 0) (hb : b % c = 0) (h : a < b) :
+    a + c ≤ b := by
+  have ea : a / c * c = a := Nat.div_mul_cancel (Nat.dvd_of_mod_eq_zero ha)
+  have eb : b / c * c = b := Nat.div_mul_cancel (Nat.dvd_of_mod_eq_zero hb)
+  have hlt : a / c < b / c := by
+    by_cases h' : a / c < b / c
+    · exact h'
+    · have := Nat.mul_le_mul_right c (Nat.le_of_not_lt h'); omega
+  have := Nat.mul_le_mul_right c (Nat.succ_le_of_lt hlt)
+  rw [Nat.succ_mul] at this
+  omega
+
+/-- A stream that reaches to the end `e` of a grid chunk is long enough for the whole walk. -/
+theorem storeChunks_ok (P : Params) (hc : 0 < P.chunk) (e : Nat)
+    (he : ∃ m, GridChunk P m ∧ m.e = e) :
+    ∀ fuel i (s : St) (stream : Bytes), i % P.chunk = 0 → e + 1 - i ≤ stream.length →
+      ∃ got, (storeChunks s stream (chunksFrom P e fuel i)).2 = some got ∧
+        got.map (·.1) = chunksFrom P e fuel i := by
+  obtain ⟨m, ⟨hm1, hm2, hm3⟩, rfl⟩ := he
+  intro fuel
+  induction fuel with
+  | zero => intro i s stream _ _; exact ⟨[], rfl, rfl⟩
+  | succ fuel ih =>
+    intro i s stream hi hlen
+    unfold chunksFrom
+    split
+    · rename_i hcond
+      have hij : i ≤ m.b := by
+        by_cases h : i ≤ m.b
+        · exact h
+        · have := aligned_add_le hm1 hi (by omega); omega
+      rw [storeChunks_cons]
+      have hsz : Chunk.size ⟨i, min (i + P.chunk - 1) (P.size - 1)⟩ ≤ stream.length := by
+        simp only [Chunk.size]; omega
+      rw [if_neg (by omega)]
+      have hal : (i + P.chunk) % P.chunk = 0 := by rw [Nat.add_mod_right]; exact hi
+      obtain ⟨got, hg1, hg2⟩ := ih (i + P.chunk)
+        { cache := s.cache.put ⟨i, min (i + P.chunk - 1) (P.size - 1)⟩
+            (stream.take (Chunk.size ⟨i, min (i + P.chunk - 1) (P.size - 1)⟩)),
+          fetched := add s.fetched (Chunk.toRegion ⟨i, min (i + P.chunk - 1) (P.size - 1)⟩) }
+        (stream.drop (Chunk.size ⟨i, min (i + P.chunk - 1) (P.size - 1)⟩)) hal
+        (by rw [List.length_drop]; simp only [Chunk.size] at hsz ⊢; omega)
+      simp only
+      rw [hg1]
+      exact ⟨_, rfl, by simp [hg2]⟩
+    · exact ⟨[], rfl, rfl⟩
+
+theorem storeParts_ok (P : Params) (hc : 0 < P.chunk) :
+    ∀ (ps : List Part) (s : St),
+      (∀ p ∈ ps, p.b % P.chunk = 0 ∧ (∃ m, GridChunk P m ∧ m.e = p.e) ∧
+        p.e + 1 - p.b ≤ p.data.length) →
+      ∃ got, (storeParts P s ps).2 = some got ∧
+        ∀ p ∈ ps, ∀ ch ∈ chunksFrom P p.e (P.size + 1) p.b, ∃ g ∈ got, g.1 = ch := by
+  intro ps
+  induction ps with
+  | nil => intro s _; exact ⟨[], rfl, by intro p hp; simp at hp⟩
+  | cons p ps ih =>
+    intro s hps
+    obtain ⟨hp1, hp2, hp3⟩ := hps p (List.mem_cons_self ..)
+    rw [storeParts_cons, if_neg (by omega)]
+    obtain ⟨got1, hg1, hg2⟩ := storeChunks_ok P hc p.e hp2 (P.size + 1) p.b s p.data hp1 hp3
+    simp only [hg1]
+    obtain ⟨got2, hk1, hk2⟩ := ih (storeChunks s p.data (chunksFrom P p.e (P.size + 1) p.b)).1
+      (fun p' h' => hps p' (List.mem_cons_of_mem _ h'))
+    rw [hk1]
+    refine ⟨got1 ++ got2, rfl, ?_⟩
+    intro p' hp' ch hch
+    rcases List.mem_cons.mp hp' with rfl | hp'
+    · rw [← hg2] at hch
+      obtain ⟨g, hg, rfl⟩ := List.mem_map.mp hch
+      exact ⟨g, List.mem_append_left _ hg, rfl⟩
+    · obtain ⟨g, hg, hgc⟩ := hk2 p' hp' ch hch
+      exact ⟨g, List.mem_append_right _ hg, hgc⟩
+
+/-- The part an honest server sends for a requested range: the announced range and all its
+bytes. -/
+def fullPart (B : Bytes) (r : Region) : Part :=
+  ⟨r.b.toNat, r.e.toNat, slice B r.b.toNat (r.e.toNat + 1 - r.b.toNat)⟩
+
+/-- An honest server answering exactly the requested ranges. -/
+def honestAnswer (B : Bytes) (rs : List Region) : Reply := .parts (rs.map (fullPart B))
+
+theorem honestAnswer_honest (B : Bytes) (rs : List Region) : HonestReply B (honestAnswer B rs) := by
+  intro p hp
+  obtain ⟨r, _, rfl⟩ := List.mem_map.mp hp
+  exact slice_self_length B _ _
+
+/-- An honest server that answers exactly the requested ranges makes the fetch succeed. -/
+theorem fetchMissing_honest_ok (P : Params) (B : Bytes) (hc : 0 < P.chunk) (hB : B.length = P.size)
+    (missing : List Chunk) (hm : ∀ c ∈ missing, GridChunk P c) (single : Bool) (s : St) :
+    ∃ got, (fetchMissing P s missing (honestAnswer B (requestRanges single missing))).2 = some got := by
+  unfold fetchMissing
+  split
+  · exact ⟨[], rfl⟩
+  · simp only [honestAnswer]
+    have hgrid := requestRanges_grid P hc missing hm single
+    have hparts : ∀ p ∈ (requestRanges single missing).map (fullPart B),
+        p.b % P.chunk = 0 ∧ (∃ m, GridChunk P m ∧ m.e = p.e) ∧ p.e + 1 - p.b ≤ p.data.length := by
+      intro p hp
+      obtain ⟨r, hr, rfl⟩ := List.mem_map.mp hp
+      obtain ⟨hle, ⟨mb, hmb, hmbe⟩, ⟨me, hme, hmee⟩⟩ := hgrid r hr
+      have h1 := hme.le hc
+      simp only [fullPart, slice_length]
+      refine ⟨?_, ⟨me, hme, by omega⟩, by omega⟩
+      have : r.b.toNat = mb.b := by omega
+      rw [this]; exact hmb.1
+    obtain ⟨got, hg1, hg2⟩ := storeParts_ok P hc _ s hparts
+    generalize storeParts P s ((requestRanges single missing).map (fullPart B)) = R at hg1
+    obtain ⟨s1, r1⟩ := R
+    simp only at hg1
+    subst hg1
+    simp only
+    rw [if_pos]
+    · exact ⟨got, rfl⟩
+    · rw [List.all_eq_true]
+      intro c hcm
+      rw [List.any_eq_true]
+      have hg := hm c hcm
+      have hle := hg.le hc
+      obtain ⟨r, hr, hr1, hr2⟩ := request_covers missing (fun c h => ((hm c h).le hc).1) single
+        c hcm (c.b : Int) (by omega) (by omega)
+      obtain ⟨_, ⟨mb, hmb, hmbe⟩, _⟩ := hgrid r hr
+      have hpm : fullPart B r ∈ (requestRanges single missing).map (fullPart B) :=
+        List.mem_map.mpr ⟨r, hr, rfl⟩
+      have hrb : r.b.toNat = mb.b := by omega
+      have hal : r.b.toNat % P.chunk = 0 := by rw [hrb]; exact hmb.1
+      have hmem : c ∈ chunksFrom P (fullPart B r).e (P.size + 1) (fullPart B r).b := by
+        rw [chunksFrom_eq_chunkList P hc _ _ _ (by omega), mem_chunkList]
+        simp only [fullPart]
+        have hdiv : (c.b - r.b.toNat) / P.chunk * P.chunk = c.b - r.b.toNat :=
+          Nat.div_mul_cancel (Nat.dvd_of_mod_eq_zero (by
+            rw [Nat.sub_mod_eq_zero_of_mod_eq (by rw [hg.1, hal])]))
+        refine ⟨(c.b - r.b.toNat) / P.chunk, ?_, ?_⟩
+        · rw [lt_numChunks_iff P hc, hdiv]; omega
+        · rw [hdiv]
+          have : r.b.toNat + (c.b - r.b.toNat) = c.b := by omega
+          rw [this]; exact hg.eq_chunkAt
+      obtain ⟨g, hgm, hgc⟩ := hg2 _ hpm c hmem
+      exact ⟨g, hgm, by simpa using hgc⟩
+
+/-- `ReadAt` cannot fail against an honest server that answers exactly the ranges requested
+for the missing chunks (whatever the cache holds). -/
+theorem readAt_honest_ok (P : Params) (B : Bytes) (hc : 0 < P.chunk) (hB : B.length = P.size)
+    (s : St) (o n : Nat) (single : Bool) :
+    ∃ ms, missingFor P s o n = some ms ∧
+      (readAt P s o n (honestAnswer B (requestRanges single ms))).2 ≠ none := by
+  by_cases h : n = 0 ∨ o > P.size
+  · refine ⟨[], by unfold missingFor; rw [if_pos h], ?_⟩
+    unfold readAt; rw [if_pos h]; simp
+  · refine ⟨(classify o n s.cache
+        (chunksFrom P (o + n - 1) (P.size + 1) (floorU o P.chunk))).2, ?_, ?_⟩
+    · unfold missingFor; rw [if_neg h, walk_readAt P hc]; rfl
+    · rw [readAt_unfold P s o n _ hc h]
+      simp only
+      have hm : ∀ c ∈ (classify o n s.cache
+          (chunksFrom P (o + n - 1) (P.size + 1) (floorU o P.chunk))).2, GridChunk P c := by
+        intro c hcm
+        have := (classify_spec o n s.cache _).2.1 c hcm
+        rw [chunksFrom_eq_chunkList P hc _ _ _ (by omega)] at this
+        exact (gridChunk_of_mem_chunkList P hc _ _ (floorU_mod ..) c this).1
+      obtain ⟨got, hg⟩ := fetchMissing_honest_ok P B hc hB _ hm single s
+      rw [hg]
+      simp
+
+/-- `Cache` cannot fail against such a server either. -/
+theorem cacheAt_honest_ok (P : Params) (B : Bytes) (hc : 0 < P.chunk) (hB : B.length = P.size)
+    (s : St) (o n : Nat) (single : Bool) :
+    (cacheAt P s o n (honestAnswer B (requestRanges single
+      ((chunksFrom P (o + n - 1) (P.size + 1) (floorU o P.chunk)).filter
+        (fun c => (s.cache.get c).isNone))))).2 = true := by
+  unfold cacheAt
+  rw [walk_readAt P hc]
+  simp only
+  have hm : ∀ c ∈ (chunksFrom P (o + n - 1) (P.size + 1) (floorU o P.chunk)).filter
+      (fun c => (s.cache.get c).isNone), GridChunk P c := by
+    intro c hcm
+    have := (List.mem_filter.mp hcm).1
+    rw [chunksFrom_eq_chunkList P hc _ _ _ (by omega)] at this
+    exact (gridChunk_of_mem_chunkList P hc _ _ (floorU_mod ..) c this).1
+  obtain ⟨got, hg⟩ := fetchMissing_honest_ok P B hc hB _ hm single s
+  generalize fetchMissing P s _ _ = R at hg
+  obtain ⟨s1, r1⟩ := R
+  simp only at hg
+  subst hg
+  rfl
 
 /-! ### fixtures for the non-vacuity examples -/
 
